@@ -66,19 +66,19 @@ func runC18(c *core.Ctx, o Options) {
 				if cal == nil || cal.Pkg == nil {
 					return
 				}
-				if (cal.Pkg.Pkg.Path() == "bytes" || cal.Pkg.Pkg.Path() == "strings") && fn.Name() != "runReader" {
-					if _, isSearch := searchFuncs[cal.Name()]; isSearch {
+				if (cal.Pkg.Pkg.Path() == "bytes" || cal.Pkg.Pkg.Path() == "strings") && an.NameOf(fn) != "runReader" {
+					if _, isSearch := searchFuncs[an.NameOf(cal)]; isSearch {
 						// strings.Contains(err.Error(), …) is not a search on message bytes
 						if strings.Contains(an.Render(call.Call.Args[0]), ".Error()") {
 							return
 						}
-						c.Ob("raw", fn.Name(), cal.Pkg.Pkg.Name()+"."+cal.Name()+" on "+an.Render(call.Call.Args[0]), call.Pos()).Fail("package %s searches bytes directly; raw messages must be inspected through fix.ValueByTag or the unmarshaller so that tags are recognised only at field boundaries", fn.Pkg.Pkg.Name())
+						c.Ob("raw", an.NameOf(fn), cal.Pkg.Pkg.Name()+"."+an.NameOf(cal)+" on "+an.Render(call.Call.Args[0]), call.Pos()).Fail("package %s searches bytes directly; raw messages must be inspected through fix.ValueByTag or the unmarshaller so that tags are recognised only at field boundaries", fn.Pkg.Pkg.Name())
 					}
 				}
 				if an.FuncIs(cal, "fix", "ValueByTag") {
 					tag := an.Render(call.Call.Args[1])
 					ok := tag == "h.msgTypeTag" || strings.HasPrefix(tag, "strconv.Itoa(s.") && (strings.HasSuffix(tag, "Tags.MsgSeqNum)") || strings.HasSuffix(tag, "Tags.MsgType)"))
-					c.Check(ok, "raw", fn.Name(), "ValueByTag("+an.Render(call.Call.Args[0])+", "+tag+")", call.Pos(), "a configured tag", "ValueByTag is asked for "+tag)
+					c.Check(ok, "raw", an.NameOf(fn), "ValueByTag("+an.Render(call.Call.Args[0])+", "+tag+")", call.Pos(), "a configured tag", "ValueByTag is asked for "+tag)
 				}
 			})
 		}
@@ -117,18 +117,18 @@ func needleCensus(c *core.Ctx, rule string, scope []*ssa.Function) int {
 			if cal == nil || cal.Pkg == nil || (cal.Pkg.Pkg.Path() != "bytes" && cal.Pkg.Pkg.Path() != "strings") {
 				return
 			}
-			ni, isSearch := searchFuncs[cal.Name()]
+			ni, isSearch := searchFuncs[an.NameOf(cal)]
 			if !isSearch {
 				return
 			}
-			name := cal.Pkg.Pkg.Name() + "." + cal.Name()
+			name := cal.Pkg.Pkg.Name() + "." + an.NameOf(cal)
 			if ni < 0 {
-				c.Ob(rule, fn.Name(), name+" on raw message bytes", call.Pos()).Unknown("function-based search: cannot infer what is matched")
+				c.Ob(rule, an.NameOf(fn), name+" on raw message bytes", call.Pos()).Unknown("function-based search: cannot infer what is matched")
 				return
 			}
 			ev := &an.SeqEval{}
 			needle := ev.Eval(call.Call.Args[ni]).Norm()
-			if strings.HasSuffix(cal.Name(), "Byte") {
+			if strings.HasSuffix(an.NameOf(cal), "Byte") {
 				if k, ok := an.ConstInt(call.Call.Args[ni]); ok {
 					needle = an.Seq{{Bytes: []byte{byte(k)}}}
 				}
@@ -142,10 +142,10 @@ func needleCensus(c *core.Ctx, rule string, scope []*ssa.Function) int {
 			switch {
 			case isTag:
 				nTag++
-				ob := c.Ob(rule, fn.Name(), key, call.Pos())
+				ob := c.Ob(rule, an.NameOf(fn), key, call.Pos())
 				anchored := len(parts) == 3 && isByte(parts[0], 1) && parts[1].Atom != "" && isByte(parts[2], '=')
 				startForm := len(parts) == 2 && parts[0].Atom != "" && isByte(parts[1], '=')
-				switch cal.Name() {
+				switch an.NameOf(cal) {
 				case "Index":
 					if anchored {
 						ob.Ok("searched as SOH·tag·'='")
@@ -180,13 +180,13 @@ func needleCensus(c *core.Ctx, rule string, scope []*ssa.Function) int {
 				}
 			case isEOM:
 				nTag++
-				ob := c.Ob(rule, fn.Name(), key, call.Pos())
+				ob := c.Ob(rule, an.NameOf(fn), key, call.Pos())
 				// Equal(seg[0:3], "10=") or HasPrefix(seg, "10=")
 				okStart := false
-				if cal.Name() == "HasPrefix" && isReadSegment(call.Call.Args[0]) {
+				if an.NameOf(cal) == "HasPrefix" && isReadSegment(call.Call.Args[0]) {
 					okStart = true
 				}
-				if cal.Name() == "Equal" {
+				if an.NameOf(cal) == "Equal" {
 					if sl, ok := call.Call.Args[0].(*ssa.Slice); ok && isReadSegment(sl.X) {
 						lo, hi := int64(0), int64(-1)
 						if sl.Low != nil {
@@ -204,19 +204,19 @@ func needleCensus(c *core.Ctx, rule string, scope []*ssa.Function) int {
 					ob.Fail("the end-of-message tag is matched with %s on %s: only a comparison with the start of the segment read up to the last delimiter recognises tag 10 at a field boundary (110=…, or a value containing 10=, would end the message early)", name, hay)
 				}
 			case shape == "'␁'":
-				c.Check(cal.Name() == "Index" || cal.Name() == "IndexByte", rule, fn.Name(), key, call.Pos(), "next delimiter", "the delimiter is located with "+name+": a value ends at the first delimiter after it")
+				c.Check(an.NameOf(cal) == "Index" || an.NameOf(cal) == "IndexByte", rule, an.NameOf(fn), key, call.Pos(), "next delimiter", "the delimiter is located with "+name+": a value ends at the first delimiter after it")
 			default:
 				// data-derived or constant needles: the group separator and the '=' search are checked below
-				if cal.Name() == "IndexByte" && shape == "'='" {
+				if an.NameOf(cal) == "IndexByte" && shape == "'='" {
 					return
 				}
-				if cal.Name() == "Index" && (shape == "'='" || (fn.Name() == "splitGroup" && call.Call.Args[ni] == ssa.Value(fn.Params[1]))) {
+				if an.NameOf(cal) == "Index" && (shape == "'='" || (an.NameOf(fn) == "splitGroup" && call.Call.Args[ni] == ssa.Value(fn.Params[1]))) {
 					return
 				}
-				if cal.Name() == "Equal" && strings.HasPrefix(shape, "⟨fix.CalcCheckSum(") {
+				if an.NameOf(cal) == "Equal" && strings.HasPrefix(shape, "⟨fix.CalcCheckSum(") {
 					return // comparison of the declared with the recomputed checksum (C03.V2), not a search
 				}
-				c.Ob(rule, fn.Name(), key, call.Pos()).Unknown("unclassified search on message bytes with needle %s", shape)
+				c.Ob(rule, an.NameOf(fn), key, call.Pos()).Unknown("unclassified search on message bytes with needle %s", shape)
 			}
 		})
 	}
